@@ -116,7 +116,8 @@ package vm
 //@ pred isNode(s) = s == "_catch" || reMatch(symRegex, s)
 
 //@ func valid
-//@   ensures[C04] @valid result == (len(target) > 0 && (isNode(str(target)) || isCtrl(str(target))))
+//@   serves C04
+//@   ensures @valid result == (len(target) > 0 && (isNode(str(target)) || isCtrl(str(target))))
 
 //@ ghost cac(ca) = as[*cache.Cache](ca)
 //@ pred memOk(ca) = typeis[*cache.Cache](ca) && cache.shape(cac(ca))
@@ -126,13 +127,14 @@ package vm
 
 // '^': unwind to the entry node, releasing one cache scope per level left.
 //@ func Rewind
+//@   serves C04
 //@   requires st != nil && memOk(ca)
 //@   requires[C05,C08] memWf(ca)
 //@   modifies st.ExecPath, st.SizeIdx, st.Moves, st.lastMove, cac(ca).Cache, cac(ca).Cache[*], cac(ca).CacheUseSize, cac(ca).Sizes[*]
-//@   ensures[C04] @top old(depth(st)) >= 1 ==> result1 == nil && depth(st) == 1 && st.ExecPath[0] == old(st.ExecPath[0])
-//@   ensures[C04] @idx old(depth(st)) > 1 ==> st.SizeIdx == 0 && result0 == st.ExecPath[0]
-//@   ensures[C04] @attop old(depth(st)) <= 1 ==> state.samePosition(st) && (old(depth(st)) == 1 ==> result0 == sym)
-//@   ensures[C04] @noerr result1 == nil
+//@   ensures @top old(depth(st)) >= 1 ==> result1 == nil && depth(st) == 1 && st.ExecPath[0] == old(st.ExecPath[0])
+//@   ensures @idx old(depth(st)) > 1 ==> st.SizeIdx == 0 && result0 == st.ExecPath[0]
+//@   ensures @attop old(depth(st)) <= 1 ==> state.samePosition(st) && (old(depth(st)) == 1 ==> result0 == sym)
+//@   ensures @noerr result1 == nil
 //@   ensures @mem memOk(ca) && (sameBacking(cac(ca).Cache, old(cac(ca).Cache)) || fresh(cac(ca).Cache))
 //@   ensures[C05,C08] @memwf memWf(ca)
 //@   ensures[C05,C08] @levels old(depth(st)) >= 1 ==> levels(ca) == max(1, old(levels(ca)) - (old(depth(st)) - 1))
@@ -149,27 +151,51 @@ package vm
 // Down panics beyond state.MaxLevel and on a move into the current node; both
 // are preconditions (the well-formedness premise of C08 for the latter).
 //@ ghost tgt(target) = str(target)
-//@ pred movesDown(target) = len(target) > 0 && isNode(tgt(target))
+//@ pred movesDown(t) = isNode(t)
+//@ pred validTarget(t) = len(t) > 0 && (isNode(t) || isCtrl(t))
+// what a successful move to t does to the position
+//@ pred moveTable(st, t) =
+//@      (isNode(t) ==> depth(st) == old(depth(st)) + 1 && state.last(st) == t && st.SizeIdx == 0 && state.pathPrefix(st, old(depth(st))))
+//@   && (t == "_" ==> depth(st) == old(depth(st)) - 1 && st.SizeIdx == 0 && state.pathPrefix(st, depth(st)))
+//@   && (t == ">" ==> state.samePath(st) && int(st.SizeIdx) == (old(int(st.SizeIdx)) + 1) % 65536)
+//@   && (t == "<" ==> state.samePath(st) && int(st.SizeIdx) == old(int(st.SizeIdx)) - 1)
+//@   && (t == "^" ==> depth(st) == 1 && st.ExecPath[0] == old(st.ExecPath[0]) && (old(depth(st)) > 1 ==> st.SizeIdx == 0) && (old(depth(st)) == 1 ==> st.SizeIdx == old(st.SizeIdx)))
+//@   && (t == "." ==> state.samePosition(st))
+// when a move to t is refused
+//@ pred moveRefused(st, t) = !validTarget(t) || (t == "_" && depth(st) <= 1) || (t == ">" && depth(st) == 0) || (t == "<" && (depth(st) == 0 || st.SizeIdx == 0))
+// Down panics beyond state.MaxLevel and on a move into the current node
+//@ pred canDescend(st, t) = isNode(t) ==> depth(st) <= state.MaxLevel && (depth(st) > 0 ==> state.last(st) != t)
 //@ func applyTarget
+//@   serves C04, C03, C02
 //@   requires st != nil && memOk(ca)
 //@   requires[C05,C08] memWf(ca)
-//@   requires movesDown(target) ==> depth(st) <= state.MaxLevel && (depth(st) > 0 ==> state.last(st) != tgt(target))
+//@   requires canDescend(st, tgt(target))
 //@   modifies st.ExecPath, st.ExecPath[*], st.SizeIdx, st.Moves, st.lastMove, cac(ca).Cache, cac(ca).Cache[*], cac(ca).CacheUseSize, cac(ca).Sizes[*]
 //@   ensures @mem memOk(ca)
 //@   ensures[C05,C08] @memwf memWf(ca)
-//@   ensures[C04] @invalid !(len(target) > 0 && (isNode(tgt(target)) || isCtrl(tgt(target)))) ==> result2 != nil && state.samePosition(st)
-//@   ensures[C04] @down movesDown(target) ==> result2 == nil && depth(st) == old(depth(st)) + 1 && state.last(st) == tgt(target)
-//@     && st.SizeIdx == 0 && state.pathPrefix(st, old(depth(st))) && result0 == tgt(target) && result1 == 0
-//@   ensures[C04] @up tgt(target) == "_" && old(depth(st)) > 1 ==> result2 == nil && depth(st) == old(depth(st)) - 1
-//@     && st.SizeIdx == 0 && state.pathPrefix(st, depth(st)) && result0 == state.last(st)
-//@   ensures[C04] @upfail tgt(target) == "_" && old(depth(st)) <= 1 ==> result2 != nil && state.samePosition(st)
-//@   ensures[C04,C02] @next tgt(target) == ">" && old(depth(st)) > 0 ==> result2 == nil && state.samePath(st)
-//@     && int(st.SizeIdx) == (old(int(st.SizeIdx)) + 1) % 65536 && result1 == st.SizeIdx
-//@   ensures[C04,C02] @previous tgt(target) == "<" && old(depth(st)) > 0 && old(st.SizeIdx) > 0 ==> result2 == nil && state.samePath(st)
-//@     && int(st.SizeIdx) == old(int(st.SizeIdx)) - 1 && result1 == st.SizeIdx
-//@   ensures[C04,C02,C03] @first tgt(target) == "<" && old(depth(st)) > 0 && old(st.SizeIdx) == 0 ==> result2 == state.IndexError && state.samePosition(st)
-//@   ensures[C04] @rewind tgt(target) == "^" && old(depth(st)) >= 1 ==> result2 == nil && depth(st) == 1 && st.ExecPath[0] == old(st.ExecPath[0])
-//@     && (old(depth(st)) > 1 ==> st.SizeIdx == 0) && (old(depth(st)) == 1 ==> st.SizeIdx == old(st.SizeIdx))
-//@   ensures[C04] @same tgt(target) == "." ==> result2 == nil && state.samePosition(st)
-//@   ensures[C04,C03] @failed result2 != nil ==> state.samePosition(st)
+//@   ensures @moved result2 == nil && (old(depth(st)) >= 1 || isNode(tgt(target))) ==> moveTable(st, tgt(target))
+//@   ensures @refused old(moveRefused(st, tgt(target))) ==> result2 != nil
+//@   ensures @accepted !old(moveRefused(st, tgt(target))) && old(depth(st)) >= 1 ==> result2 == nil
+//@   ensures @first tgt(target) == "<" && old(depth(st)) > 0 && old(st.SizeIdx) == 0 ==> result2 == state.IndexError
+//@   ensures @failed result2 != nil ==> state.samePosition(st)
+//@   ensures @where result2 == nil && depth(st) > 0 && (old(depth(st)) >= 1 || isNode(tgt(target))) ==> result0 == state.last(st)
 //@   ensures[C05,C08] @lockstep result2 == nil && old(levels(ca)) == old(depth(st)) + 1 && old(depth(st)) >= 1 ==> levels(ca) == depth(st) + 1
+//@   ensures[C05,C08] @lockfail result2 != nil ==> levels(ca) == old(levels(ca))
+
+// ---- the VM object (runner.go) ----
+// The renderer hangs off the Vm: one Page, the current Menu (replaced on every
+// Reset) and the optional Sizer shared with the Page.
+//@ pred vmOk(vm) = vm != nil && vm.st != nil && state.flagsOk(vm.st) && vm.pg != nil && vm.mn != nil && memOk(vm.ca)
+//@   && vm.rs != nil && vm.pg.menu == vm.mn && (vm.pg.sizer == nil || vm.pg.sizer == vm.sizer) && vm.pg.cache == vm.ca
+//@ pred unmapped(vm) = all[string](k, !in(k, vm.pg.cacheMap)) && vm.pg.sink == nil && vm.pg.extra == ""
+//@ pred freshMenu(vm) = len(vm.mn.menu) == 0 && !vm.mn.sink && vm.mn.pageCount == 0 && vm.mn.keep
+
+//@ func (*Vm).Reset
+//@   requires vmi != nil && vmi.pg != nil
+//@   modifies vmi.mn, vmi.pg.sink, vmi.pg.extra, vmi.pg.cacheMap, vmi.pg.menu, vmi.pg.sizer
+//@   modifies vmi.pg.menu.menu, vmi.pg.menu.sink, vmi.pg.menu.canNext, vmi.pg.menu.canPrevious
+//@   modifies vmi.pg.sizer.crsrs, vmi.sizer.crsrs
+//@   ensures @menu fresh(vmi.mn) && vmi.pg.menu == vmi.mn && freshMenu(vmi)
+//@   ensures[C05,C07] @unmapped unmapped(vmi)
+//@   ensures @sizer (vmi.sizer != nil ==> vmi.pg.sizer == vmi.sizer) && (vmi.sizer == nil ==> vmi.pg.sizer == old(vmi.pg.sizer))
+//@   ensures[C02,C07] @cursors vmi.pg.sizer != nil ==> len(vmi.pg.sizer.crsrs) == 0
